@@ -338,3 +338,46 @@ def csqrt_scalar(x: complex) -> complex:
         return cmath.sqrt(x)
     xr = x.real if isinstance(x, complex) else x
     return 1j * math.sqrt(-xr) if xr < 0 else complex(math.sqrt(xr))
+
+
+class ModelEvaluator:
+    """Four-momenta -> kinematic variables (route A: ampform's printers) -> intensity, lambdified once."""
+
+    def __init__(self, model, params: dict | None = None, fast: bool = True, cse: bool = True, expression=None) -> None:
+        self.pvals = dict(model.parameter_defaults)
+        if params:
+            self.pvals.update(params)
+        self.kin = {}
+        for sym, expr in model.kinematic_variables.items():
+            e = expr.xreplace(self.pvals).doit()
+            fs = sorted(e.free_symbols, key=str)
+            self.kin[sym] = (fs, sp.lambdify(fs, e, cse=cse))
+        expr = model.expression if expression is None else expression
+        needed = {s for s in expr.free_symbols if isinstance(s, sp.Symbol)}
+        self.kin = {k: v for k, v in self.kin.items() if k in needed}
+        e = expr.xreplace({k: v for k, v in self.pvals.items() if k in needed})
+        if fast:
+            e = replace_wigner(replace_wigner(e).doit())
+            self.args = sorted(e.free_symbols, key=str)
+            self.f = sp.lambdify(self.args, e, modules=_FAST_MODULES, cse=cse)
+        else:
+            e = e.doit()
+            self.args = sorted(e.free_symbols, key=str)
+            self.f = sp.lambdify(self.args, e, cse=cse)
+        missing = [a for a in self.args if a not in self.kin]
+        if missing:
+            raise KeyError(f"expression symbols without kinematic definition or parameter value: {missing}")
+
+    def kinematics(self, events: dict) -> dict:
+        out = {}
+        n = len(next(iter(events.values())))
+        with np.errstate(all="ignore"):
+            for sym, (fs, f) in self.kin.items():
+                out[sym] = np.asarray(f(*[events[momentum_index(s)] for s in fs])) * np.ones(n)
+        return out
+
+    def __call__(self, events: dict):
+        kv = self.kinematics(events)
+        n = len(next(iter(events.values())))
+        with np.errstate(all="ignore"):
+            return np.asarray(self.f(*[kv[a] for a in self.args])) * np.ones(n), kv
